@@ -26,6 +26,8 @@ BASE = [
     ["add_parameter", "p", {"v": "1/2"}],
     ["add_parameter", "q", {"ia": fn(["dd"], ["*", A(0), K(2)])}],
     ["add_variable", "z", {"ia": fn(["k"], ["+", A(0), K(1)])}],
+    # fixed when the cache is built, from the initial value of a variable
+    ["add_parameter", "px", {"ia": fn(["x"], ["+", A(0), K(1)])}],
     ["add_derived", "dp", fn(["k", "p"], ["+", A(0), A(1)])],
     ["add_derived", "dv", fn(["x", "dp"], ["*", A(0), A(1)])],
     ["add_reaction", "r1", {**fn(["x", "k"], ["*", A(0), A(1)]), "st": [["x", {"c": "-1"}], ["y", {"c": "1"}]]}],
@@ -52,7 +54,37 @@ QUERIES = [
 BATTERY = [["q", "init"], ["q", "classes"], ["q", "pvals"], ["q", "argsro", ["2", "3", "1"], "1"],
            ["q", "rhs", ["2", "3", "1"], "1"]]
 
+ALL = [True] * 8 + [False]
+ROWS = [["0", ["1", "2", "3"]], ["1/2", ["2", "1"]], ["2", ["3"]]]
+
+
+def FL(**kw):
+    """FLAGS with the given include_* switched (defaults of get_args)"""
+    names = ["time", "vars", "pars", "dpars", "dvars", "rxns", "survars", "surfluxes", "readouts"]
+    return [kw.get(n, d) for n, d in zip(names, ALL)]
+
+
+ONLY = lambda *on: [n in on for n in ["time", "vars", "pars", "dpars", "dvars", "rxns", "survars", "surfluxes", "readouts"]]  # noqa: E731
+
+# the public getters beyond QUERIES: name lists, get_arg_names / get_args with include_* flags, raw
+# stoichiometries, the three time-course forms, equality with a newly built model
+QUERIES2 = [
+    ["q", "names", "vars"], ["q", "names", "pars"], ["q", "names", "rxns"], ["q", "names", "readouts"],
+    ["q", "names", "surouts"], ["q", "names", "survars"], ["q", "names", "surrxns"], ["q", "names", "unused"],
+    ["q", "names", "rawvars"], ["q", "names", "rawpars"], ["q", "names", "rawderived"], ["q", "names", "rawrxns"],
+    ["q", "names", "rawreadouts"], ["q", "names", "rawsurs"], ["q", "stoichvar", "z", ["1", "3"], "1"],
+    ["q", "argnames", FL(readouts=True)], ["q", "argnames", ONLY("vars", "rxns", "surfluxes")],
+    ["q", "argnames", ONLY("dpars")], ["q", "argnames", ONLY("time", "dvars", "survars", "readouts")],
+    ["q", "argsf", ["2", "1", "3"], "1", ONLY("dpars", "dvars")], ["q", "argsf", None, "0", ONLY("time", "pars", "survars")],
+    ["q", "argsf", ["1", "2"], "1/2", ONLY("readouts", "rxns")], ["q", "argsf", ["1"], "0", FL(time=False, vars=False)],
+    ["q", "rawstoich", "y"], ["q", "rawstoich", "z"], ["q", "rawstoich", "nope"],
+    ["q", "argstc", ROWS, ALL], ["q", "argstc", ROWS[:2], ONLY("dvars", "readouts", "surfluxes")],
+    ["q", "fluxestc", ROWS], ["q", "rhstc", ROWS], ["q", "rhstc", ROWS[1:]],
+    ["q", "eq"],
+]
+
 V = lambda q: {"v": str(q)}  # noqa: E731
+VO = lambda q: {"v": str(q), "obj": True}  # noqa: E731
 IA = lambda args, e: {"ia": fn(args, e)}  # noqa: E731
 SUR2 = {"args": ["x"], "outs": ["o1", "o2"], "es": [["+", A(0), K(1)], ["*", A(0), K(3)]],
         "st": [["o2", [["x", {"c": "-1"}]]]]}
@@ -71,50 +103,62 @@ CHOICES = {
                       ["n1", IA(["k"], ["*", A(0), K(2)])], ["ro", V(1)], ["s", V(1)]],
     "remove_parameter": [["p"], ["x"], ["k"], ["q"], ["nope"], ["dd"]],
     "update_parameter": [["k", V(5)], ["x", V(5)], ["k", IA(["p"], ["+", A(0), K(1)])], ["q", V(7)], ["nope", V(1)],
-                         ["k", None], ["q", IA(["k"], A(0))]],
+                         ["k", None], ["q", IA(["k"], A(0))], ["k", None, "meta"], ["p", V(2), "meta"]],
     "scale_parameter": [["k", "2"], ["x", "2"], ["q", "2"], ["nope", "2"], ["p", "1/2"]],
     "make_parameter_dynamic": [["k", None, None], ["k", None, [["nope", "1"]]], ["k", "5", None], ["k", None, [["r1", "2"]]],
                                ["k", None, [["sf", "1"]]], ["k", None, [["r1", "1"], ["nope", "1"]]], ["q", None, None],
                                ["x", None, None], ["nope", None, None], ["p", "2", [["r2", "-1"], ["sf", "2"]]],
                                ["k", None, [["so", "1"]]]],
     "add_parameters": [[[["n1", V(1)], ["n2", V(2)]]], [[["n1", V(1)], ["k", V(2)]]], [[["k", V(1)], ["n1", V(2)]]],
-                       [[["n1", V(1)], ["n2", IA(["n1"], A(0))], ["x", V(1)]]]],
+                       [[["n1", V(1)], ["n2", IA(["n1"], A(0))], ["x", V(1)]]],
+                       [[["n1", VO(1)], ["n2", {**IA(["k"], A(0)), "obj": True}], ["n3", V(2)]]], [[["n1", VO(1)], ["k", VO(2)]]]],
     "remove_parameters": [[["p", "k"]], [["p", "x"]], [["nope", "p"]], [["p", "p"]]],
-    "update_parameters": [[[["k", V(4)], ["p", V(2)]]], [[["k", V(4)], ["x", V(2)]]], [[["nope", V(4)], ["k", V(2)]]]],
+    "update_parameters": [[[["k", V(4)], ["p", V(2)]]], [[["k", V(4)], ["x", V(2)]]], [[["nope", V(4)], ["k", V(2)]]],
+                          [[["k", VO(4)], ["q", VO(2)], ["p", V(1)]]]],
     "scale_parameters": [[[["k", "2"], ["p", "4"]]], [[["k", "2"], ["nope", "2"]]], [[["q", "2"], ["k", "2"]]]],
     "add_variable": [["n1", V(2)], ["x", V(2)], ["k", V(2)], ["sf", V(2)], ["time", V(1)],
                      ["n1", IA(["x", "k"], ["+", A(0), A(1)])], ["dv", V(1)]],
     "remove_variable": [["y", True], ["k", True], ["x", False], ["z", True], ["nope", True], ["x", True], ["dp", False]],
-    "update_variable": [["x", V(5)], ["k", V(5)], ["z", V(1)], ["x", IA(["k"], A(0))], ["nope", V(1)]],
+    "update_variable": [["x", V(5)], ["k", V(5)], ["z", V(1)], ["x", IA(["k"], A(0))], ["nope", V(1)], ["y", V(3), "meta"]],
     "make_variable_static": [["x", None], ["k", None], ["x", "5"], ["z", None], ["nope", None], ["y", "1/2"]],
-    "add_variables": [[[["n1", V(1)], ["n2", V(2)]]], [[["n1", V(1)], ["x", V(2)]]], [[["k", V(1)], ["n1", V(2)]]]],
+    "add_variables": [[[["n1", V(1)], ["n2", V(2)]]], [[["n1", V(1)], ["x", V(2)]]], [[["k", V(1)], ["n1", V(2)]]],
+                      [[["n1", VO(1)], ["n2", {**IA(["x"], A(0)), "obj": True}]]]],
     "remove_variables": [[["y", "z"], True], [["y", "k"], True], [["nope", "y"], False]],
-    "update_variables": [[[["x", V(4)], ["y", V(1)]]], [[["x", V(4)], ["k", V(2)]]], [[["nope", V(4)], ["x", V(2)]]]],
+    "update_variables": [[[["x", V(4)], ["y", V(1)]]], [[["x", V(4)], ["k", V(2)]]], [[["nope", V(4)], ["x", V(2)]]],
+                         [[["x", VO(4)], ["z", VO(1)]]]],
     "add_derived": [["n1", fn(["x", "k"], ["+", A(0), A(1)])], ["dp", fn(["k"], A(0))], ["n1", fn(["k"], ["*", A(0), K(2)])],
                     ["x", fn(["k"], A(0))], ["n1", fn(["n1"], A(0))], ["n1", fn(["nope"], A(0))], ["time", fn(["k"], A(0))],
                     ["n1", fn(["r1", "sf"], ["+", A(0), A(1)])]],
     "update_derived": [["dp", ["*", A(0), A(1)], None], ["x", ["*", A(0), A(1)], None], ["dp", None, ["p", "k"]],
                        ["dp", ["-", A(0), A(1)], ["x", "k"]], ["nope", None, ["k"]], ["dv", A(0), ["k"]],
-                       ["ds", None, ["sf"]]],
+                       ["ds", None, ["sf"]], ["dp", None, None, "meta"]],
     "remove_derived": [["dp"], ["x"], ["dv"], ["ds"], ["nope"], ["r1"]],
     "add_reaction": [["n1", RX], ["r1", RX], ["x", RX], ["so", RX], ["time", RX],
                      ["n1", {**fn(["x"], A(0)), "st": [["y", fn(["k"], A(0))], ["x", fn(["y"], A(0))]]}]],
     "update_reaction": [["r1", ["+", A(0), A(1)], None, None], ["x", None, None, None], ["r1", None, None, [["y", {"c": "3"}]]],
                         ["r1", A(0), ["y"], [["x", {"c": "1"}], ["y", fn(["x"], A(0))]]], ["nope", A(0), ["y"], None],
-                        ["r2", None, ["x", "k"], None]],
+                        ["r2", None, ["x", "k"], None], ["r1", None, None, None, "meta"]],
     "remove_reaction": [["r1"], ["x"], ["r2"], ["nope"], ["sf"]],
     "add_readout": [["n1", fn(["x", "r1"], ["+", A(0), A(1)])], ["ro", fn(["x"], A(0))], ["x", fn(["x"], A(0))],
                     ["time", fn(["x"], A(0))], ["n1", fn(["nope"], A(0))]],
     "remove_readout": [["ro"], ["x"], ["nope"]],
     "add_surrogate": [["n1", SUR2], ["n1", sur(["o1", "k"])], ["s", SUR2], ["x", SUR2], ["n1", sur(["o1", "o1"])],
                       ["n1", sur(["n1"])], ["n1", sur(["o1", "time"])], ["time", SUR2], ["n1", sur(["o1"], ("dv",), "o1")],
-                      ["n1", sur(["so"])]],
+                      ["n1", sur(["so"])],
+                      # keyword form: args / outputs / stoichiometries override the object's own
+                      ["n1", sur(["so", "sf"]), ["y"], ["o1", "o2"], [["o2", [["x", {"c": "1"}]]]]],
+                      ["n1", sur(["o1", "o2"]), None, ["o1", "k"], None], ["n1", sur(["o1"], ("x",), "o1"), ["x", "y"], None, []],
+                      ["n1", sur(["so"]), None, ["n1"], None],
+                      ["n1", {"args": ["x"], "outs": ["o1", "o2"], "es": [["+", A(0), K(1)], ["*", A(0), K(3)]],
+                              "st": [["o1", [["y", fn(["p"], ["*", A(0), K(4)])], ["x", fn(["y"], A(0))]]],
+                                     ["o2", [["z", fn(["dd"], A(0))]]]]}]],
     "update_surrogate": [["s", sur(["so", "sf"], ("y",), "sf"), None, None, None], ["s", None, None, ["o8", "o9"], None],
                          ["s", sur(["so", "o9"], ("x",), "o9"), None, None, None], ["s", None, ["y", "x"], None, None],
                          ["s", None, None, None, [["so", [["x", {"c": "1"}]]]]], ["s", sur(["o1", "k"]), None, None, None],
                          ["nope", sur(["o1"]), None, None, None], ["x", sur(["o1"]), None, None, None],
                          ["s", None, None, ["sf", "so"], None], ["s", sur(["o1", "o1"]), None, None, None],
-                         ["s", None, None, ["so", "time"], None], ["s", sur(["o7"], ("k",)), ["x"], ["so", "sf"], []]],
+                         ["s", None, None, ["so", "time"], None], ["s", sur(["o7"], ("k",)), ["x"], ["so", "sf"], []],
+                         ["s", None, None, None, [["sf", [["y", fn(["dp"], A(0))], ["x", fn(["time"], A(0))]]]]]],
     "remove_surrogate": [["s"], ["x"], ["so"], ["nope"]],
     "add_data": [["n1", "3"], ["dd", "3"], ["x", "3"], ["time", "1"], ["sf", "1"]],
     "update_data": [["dd", "5"], ["zz", "1"], ["x", "1"]],
@@ -140,6 +184,84 @@ def pairs(n_q1=None):
                 mid = ([q1] if q1 else []) + [mop, q2]
                 yield {"ops": BASE + mid + BATTERY, "check_from": len(BASE), "stratum": "pair",
                        "shape": f"pair:{mop[0]}"}
+
+
+def pairs2():
+    """the remaining public getters: every mutator x every argument choice x (none | a cache-filling query) x three of
+    QUERIES2 (rotating, so that every getter meets every mutator) followed by the equality query and a short battery"""
+    k = 0
+    for mop in mut_ops():
+        for q1 in (None, QUERIES[k % len(QUERIES)]):
+            qs = [QUERIES2[(k + j * 7) % (len(QUERIES2) - 1)] for j in range(3)]
+            k += 1
+            mid = ([q1] if q1 else []) + [mop] + qs + [["q", "eq"]]
+            yield {"ops": BASE + mid + BATTERY[-2:], "check_from": len(BASE), "stratum": "pair2",
+                   "shape": f"pair2:{mop[0]}"}
+
+
+# --------------------------------------------------------------------------- function signatures (arity checks)
+
+SIG = lambda f, sig: {**f, "sig": sig}  # noqa: E731
+F2 = fn(["x", "k"], ["+", A(0), A(1)])
+F1 = fn(["x"], ["*", A(0), K(2)])
+F3 = fn(["x", "k", "p"], ["+", A(0), ["*", A(1), A(2)]])
+
+# (op, repair op | None): ops whose function has a stated signature [nargs, ndefaults|null, nkwonly, varargs]
+ARITY_OPS = [
+    (["add_derived", "n1", SIG(F2, [3, None, 0, False])], ["remove_derived", "n1"]),          # too many parameters
+    (["add_derived", "n1", SIG(F2, [1, None, 0, False])], ["update_derived", "n1", ["+", A(0), A(1)], None]),
+    (["add_derived", "n1", SIG(F2, [1, None, 0, True])], None),                               # *args: accepted
+    (["add_derived", "n1", SIG(F2, [2, 1, 0, False])], None),                                 # f(a0, a1=0.0)
+    (["add_derived", "n1", SIG(F2, [2, None, 1, False])], None),                              # f(a0, a1, *, k0=0.0)
+    (["add_derived", "n1", SIG(F1, [2, 1, 0, False])], ["update_derived", "n1", None, ["x", "k"]]),  # callable, yet rejected
+    (["update_derived", "dp", {"e": ["+", A(0), A(1)], "sig": [3, None, 0, False]}, None], ["update_derived", "dp", ["+", A(0), A(1)], None]),
+    (["update_derived", "dp", None, ["k"]], ["update_derived", "dp", None, ["p", "k"]]),      # args shrink, function stays
+    (["update_derived", "dv", A(0), None], ["update_derived", "dv", None, ["x"]]),              # one-parameter function, two args
+    (["add_reaction", "n1", {**SIG(F2, [3, None, 0, False]), "st": [["y", {"c": "1"}]]}], ["remove_reaction", "n1"]),
+    (["update_reaction", "r1", None, ["y"], None], ["update_reaction", "r1", A(0), None, None]),
+    (["update_reaction", "r1", {"e": A(0), "sig": [1, None, 0, True]}, None, None], None),
+    (["add_parameter", "n1", {"ia": SIG(fn(["k"], A(0)), [2, None, 0, False])}], ["update_parameter", "n1", V(1)]),
+    (["update_parameter", "q", {"ia": SIG(fn(["dd"], A(0)), [0, None, 0, False])}], ["scale_parameter", "k", "2"]),
+    (["update_variable", "z", {"ia": SIG(fn(["k"], A(0)), [2, None, 0, False])}], ["make_variable_static", "z", None]),
+    (["update_variable", "z", {"ia": SIG(fn(["k"], A(0)), [2, None, 0, False])}], ["make_variable_static", "z", "3"]),
+    (["add_variables", [["n1", V(1)], ["n2", {"ia": SIG(fn(["x"], A(0)), [2, None, 0, False]), "obj": True}]]],
+     ["update_variables", [["n2", V(2)]]]),
+    (["update_parameters", [["k", V(2)], ["q", {"ia": SIG(fn(["k"], A(0)), [3, 1, 0, False])}]]], ["scale_parameter", "q", "2"]),
+    (["add_readout", "n1", SIG(F1, [2, None, 0, False])], ["remove_readout", "n1"]),
+    (["add_readout", "n1", SIG(F3, [2, 1, 0, False])], None),     # nargs + len(defaults) == arity: accepted by the code
+    (["add_readout", "n1", SIG(F3, [1, 1, 2, False])], None),     # nargs + len(kwonly) == arity with defaults: accepted
+    (["add_readout", "n1", SIG(F3, [1, None, 2, False])], ["remove_readout", "n1"]),  # the same without defaults: rejected
+    (["add_readout", "n1", SIG(F3, [5, None, 0, True])], None),   # *args wins over everything
+]
+# cache-building queries that do not evaluate readouts, and two that build no cache at all
+ARITY_QS = [["q", "init"], ["q", "rhs", ["2", "1", "3"], "1"], ["q", "classes"], ["q", "args", None, "0"],
+            ["q", "argnames", ONLY("dvars")], ["q", "names", "readouts"], ["q", "argnames", ONLY("vars", "readouts")],
+            ["q", "stoich", ["1", "2"], "0"], ["q", "fluxestc", ROWS[:2]]]
+
+
+def arity_histories():
+    """build; [q]; op carrying a function with a stated signature; queries; repair; queries"""
+    k = 0
+    for op, repair in ARITY_OPS:
+        for q1 in (None, ARITY_QS[k % 4]):
+            qs = [ARITY_QS[(k + j * 2) % len(ARITY_QS)] for j in range(3)]
+            k += 1
+            mid = ([q1] if q1 else []) + [op] + qs + ([repair] + qs[:2] + [["q", "pvals"]] if repair else [])
+            yield {"ops": BASE + mid, "check_from": len(BASE), "stratum": "arity", "shape": f"arity:{op[0]}"}
+
+
+def extra_histories():
+    """branches that need two steps of preparation: make_parameter_dynamic with a flux that only the SECOND
+    surrogate has (the loop passes a surrogate without it), and with fluxes of a reaction and a surrogate at once"""
+    two = [["add_surrogate", "n1", SUR2]]
+    for q in (None, QUERIES[0]):
+        for mpd in (["make_parameter_dynamic", "k", None, [["o2", "1"]]],
+                    ["make_parameter_dynamic", "p", "2", [["sf", "2"], ["o2", "-1"], ["r1", "1"]]],
+                    ["make_parameter_dynamic", "k", None, [["o2", "1"], ["o1", "1"]]]):
+            mid = two + ([q] if q else []) + [mpd, ["q", "stoich", ["1", "2", "3", "1"], "1"], ["q", "rawstoich", mpd[1]],
+                                               ["q", "names", "surrxns"]]
+            yield {"ops": BASE + mid + BATTERY[-2:], "check_from": len(BASE), "stratum": "extra",
+                   "shape": "extra:make_parameter_dynamic"}
 
 
 def triples(rng=None, n=None):
@@ -183,6 +305,7 @@ class Sim:
         return [n for n, _ in self.c[kind]]
 
     def apply(self, op):
+        op = c03spec.effective(op)
         ns = c03spec.Names(self.c)
         from .c03ops import PLURAL, singular_ops
 
@@ -283,16 +406,26 @@ def random_history(rng, length):
 
     def mkfn(n=None):
         n = n or rng.choice([1, 1, 2])
-        return fn(pick_args(n), rng.choice(EXPRS1 if n == 1 else EXPRS2))
+        f = fn(pick_args(n), rng.choice(EXPRS1 if n == 1 else EXPRS2))
+        if rng.random() < 0.04:
+            # a stated signature: rejected by the arity check (never called), or *args (callable with any number)
+            f["sig"] = rng.choice([[n + 1, None, 0, False], [n + 1, 1, 0, False], [n, None, 0, True], [0, None, 0, True],
+                                   [n, None, 1, False]])
+        return f
 
     def val():
         if rng.random() < 0.25 and usable():
             return {"ia": mkfn()}
         return V(rng.choice([1, 2, 3, "1/2", 0, -1]))
 
+    def elval():
+        """element of a plural form: now and then wrapped in a Parameter / Variable object"""
+        v = val()
+        return {**v, "obj": True} if rng.random() < 0.3 else v
+
     def coef():
         if rng.random() < 0.3 and usable():
-            return mkfn(1)
+            return fn(pick_args(1), rng.choice(EXPRS1))
         return {"c": str(rng.choice([-2, -1, 1, 2, "1/2"]))}
 
     def st():
@@ -350,12 +483,12 @@ def random_history(rng, length):
             return [m, target("pars"), None if rng.random() < 0.6 else str(rng.choice([1, 5])), stc]
         if m == "add_parameters":
             names = list(dict.fromkeys(newname() for _ in range(rng.choice([1, 2, 3]))))
-            return [m, [[n, val()] for n in names]]
+            return [m, [[n, elval()] for n in names]]
         if m == "remove_parameters":
             return [m, [target("pars") for _ in range(rng.choice([1, 2]))]]
         if m == "update_parameters":
             names = list(dict.fromkeys(target("pars") for _ in range(rng.choice([1, 2, 3]))))
-            return [m, [[n, val()] for n in names]]
+            return [m, [[n, elval()] for n in names]]
         if m == "scale_parameters":
             names = list(dict.fromkeys(target("pars") for _ in range(rng.choice([1, 2]))))
             return [m, [[n, str(rng.choice([2, "1/2"]))] for n in names]]
@@ -369,12 +502,12 @@ def random_history(rng, length):
             return [m, target("vars"), None if rng.random() < 0.6 else str(rng.choice([1, 4]))]
         if m == "add_variables":
             names = list(dict.fromkeys(newname() for _ in range(rng.choice([1, 2, 3]))))
-            return [m, [[n, val()] for n in names]]
+            return [m, [[n, elval()] for n in names]]
         if m == "remove_variables":
             return [m, [target("vars") for _ in range(rng.choice([1, 2]))], rng.random() < 0.8]
         if m == "update_variables":
             names = list(dict.fromkeys(target("vars") for _ in range(rng.choice([1, 2]))))
-            return [m, [[n, val()] for n in names]]
+            return [m, [[n, elval()] for n in names]]
         if m == "add_derived":
             return [m, newname(), mkfn()]
         if m == "update_derived":
@@ -412,6 +545,12 @@ def random_history(rng, length):
         if m == "remove_readout":
             return [m, target("readouts")]
         if m == "add_surrogate":
+            if rng.random() < 0.25:
+                su, su2 = mksur(), mksur()
+                # (the overriding args keep the number of arguments: arity is not the subject here)
+                return [m, newname(), su, pick_args(len(su["args"])) if rng.random() < 0.5 else None,
+                        su2["outs"] if rng.random() < 0.6 and len(su2["outs"]) == len(su["outs"]) else None,
+                        su2["st"] if rng.random() < 0.5 and su2["outs"] == su["outs"] else None]
             return [m, newname(), mksur()]
         if m == "update_surrogate":
             n = target("surs")
@@ -447,8 +586,11 @@ def random_history(rng, length):
         ops.append(op)
         sim.apply(op)
     while len(ops) < length:
-        if rng.random() < 0.35:
-            ops.append(rng.choice(QUERIES + BATTERY))
+        r = rng.random()
+        if r < 0.03:
+            ops.append(["fork"])
+        elif r < 0.35:
+            ops.append(rng.choice(QUERIES + BATTERY + QUERIES2))
         else:
             op = gen_mut()
             ops.append(op)
